@@ -214,6 +214,8 @@ every case and evaluates the integer certificate below in Lean. -/
 
 structure Lat (np ns N : Nat) where
   s2pp : Fin ns → Fin np
+  /-- the primitive representative of every sublattice (`p2s_map`) -/
+  base : Fin np → Fin ns
   /-- integer numerators of the commensurate points -/
   kq : Fin N → P3
   /-- lattice vector (primitive coordinates) of every supercell atom -/
@@ -221,24 +223,40 @@ structure Lat (np ns N : Nat) where
   /-- common denominator (`det S`) -/
   Nd : Int
 
-/-- exponent of `ζ` for q-point `q` and atom `k`, reduced -/
-def Lat.ex {np ns N : Nat} (L : Lat np ns N) (q : Fin N) (k : Fin ns) : Int := ((L.kq q).dot (L.R k)) % L.Nd
+/-- exponent of `ζ` for q-point `q` and atom `k` -/
+def Lat.ex {np ns N : Nat} (L : Lat np ns N) (q : Fin N) (k : Fin ns) : Int := (L.kq q).dot (L.R k)
 
-/-- executable certificate:
-* `Nd > 0`, `N · np = ns`;
-* the q-points are pairwise different modulo `Nd` and closed under addition modulo `Nd`
-  ("shifting the list by any member permutes it");
-* two different atoms of one sublattice are separated by some q-point;
-* every sublattice has a translation table: for atoms `k, t` of the sublattice of `k` there is
-  an atom `k'` of the same sublattice with `R k' ≡ R k + R t` in all q-phases. -/
+/-- exponent relative to the representative of the sublattice -/
+def Lat.rel {np ns N : Nat} (L : Lat np ns N) (q : Fin N) (k : Fin ns) : Int :=
+  L.ex q k - L.ex q (L.base (L.s2pp k))
+
+/-- executable certificate (evaluated by the check on the implementation's tables):
+* `Nd > 0`; the representatives lie in their sublattices; every sublattice has `N` atoms;
+* (Q1) the q-points are pairwise different modulo `Nd`, (Q2) closed under addition modulo `Nd`
+  ("shifting the list by any member permutes it"), (Q3) closed under negation;
+* (K1) two different atoms of one sublattice are separated by some q-point;
+* (K2) the atoms of a sublattice are closed under the lattice translations of that sublattice
+  (as far as the q-phases can see);
+* (K3) two different q-points are separated by some atom of every sublattice. -/
 def Lat.wf {np ns N : Nat} (L : Lat np ns N) : Bool :=
-  decide (0 < L.Nd) && N * np == ns &&
+  decide (0 < L.Nd) &&
+  (List.finRange np).all (fun j => L.s2pp (L.base j) == j) &&
+  (List.finRange np).all (fun j => ((List.finRange ns).filter fun k => L.s2pp k == j).length == N) &&
   (List.finRange N).all (fun q => (List.finRange N).all fun q' =>
     (q == q') || ((L.kq q).mod L.Nd != (L.kq q').mod L.Nd)) &&
   (List.finRange N).all (fun q => (List.finRange N).all fun q' => (List.finRange N).any fun q'' =>
     (L.kq q'').mod L.Nd == ((L.kq q).add (L.kq q')).mod L.Nd) &&
+  (List.finRange N).all (fun q => (List.finRange N).any fun q' =>
+    ((L.kq q).add (L.kq q')).mod L.Nd == (0, 0, 0)) &&
   (List.finRange ns).all (fun k => (List.finRange ns).all fun k' =>
     (k == k') || (L.s2pp k != L.s2pp k') ||
-      (List.finRange N).any fun q => L.ex q k != L.ex q k')
+      (List.finRange N).any fun q => (L.ex q k - L.ex q k') % L.Nd != 0) &&
+  (List.finRange ns).all (fun k => (List.finRange ns).all fun t =>
+    (L.s2pp k != L.s2pp t) ||
+      (List.finRange ns).any fun k' => L.s2pp k' == L.s2pp k &&
+        (List.finRange N).all fun q => (L.rel q k' - L.rel q k - L.rel q t) % L.Nd == 0) &&
+  (List.finRange N).all (fun q => (List.finRange N).all fun q' =>
+    (q == q') || (List.finRange np).all fun j => (List.finRange ns).any fun t =>
+      L.s2pp t == j && (L.rel q t - L.rel q' t) % L.Nd != 0)
 
 end PhononModel.C06
